@@ -394,6 +394,25 @@ class Emitter:
         if k == "array":
             vs = [self.ex(x, env) for x in e[1]]
             return "[" + ", ".join(v for v, _ in vs) + "]", ("vec", vs[0][1])
+        if k == "format":
+            # format!("a{}b", x) / write!(f, "a{}b", x): the text produced (Display of strings only)
+            tmpl, args, target = e[1], e[2], e[3]
+            parts = tmpl.split("{}")
+            if len(parts) != len(args) + 1 or "{" in tmpl.replace("{}", "") or "\\" in tmpl:
+                self.fail("format template with anything else than plain {} placeholders")
+            vs = []
+            for a in args:
+                v, t = self.ex(a, env)
+                if t != "str":
+                    self.fail("format argument that is not a string")
+                vs.append(v)
+            out = []
+            for i, p in enumerate(parts):
+                if p:
+                    out.append('"' + p + '"')
+                if i < len(vs):
+                    out.append(atom(vs[i]))
+            return "(" + " ++ ".join(out or ['""']) + ")", "str"
         if k == "try":
             v, t = self.ex(e[1], env)
             if not (isinstance(t, tuple) and t[0] == "res"):
@@ -1047,6 +1066,8 @@ class Emitter:
         if last == "new" and segs[-2] in ("Vec", "VecDeque") and not args:
             t = gen_t or (want if (isinstance(want, tuple) and want[0] == "vec") else ("vec", self.tr.default_elem))
             return f"([] : {lean_ty(t)})", t
+        if segs[-2:] == ["String", "new"] and not args:
+            return '""', "str"
         if segs[-2:] == ["mem", "take"] and len(args) == 1:
             return self.ex(args[0], env, want)
         if last in ("unreachable_unchecked", "unreachable") :
@@ -2557,6 +2578,8 @@ class Translator:
                 if ty is None:
                     raise Unsupported(f"{where}: parameter {nm} without a type")
                 t = (param_types or {}).get(nm) or em.ty_of_text(ty)
+                if t == "fmtr":
+                    continue                 # the fmt::Formatter: the function's value is the text written to it
                 ps.append((nm, t)); env[nm] = (lname(nm), t)
                 if ty.replace(" ", "").startswith("&mut"):
                     muts.append(nm)
@@ -2897,6 +2920,7 @@ def main():
         T(t, "register/class.rs", "get_by_mask", "creg_get_by_mask", struct="CReg")
         T(t, "register/class.rs", "mul", "creg_mul", struct="CReg", impl=r"impl Mul for Reg")
         T(t, "register/class.rs", "mul_assign", "creg_mul_assign", struct="CReg", impl=r"impl MulAssign for Reg")
+        T(t, "register/class.rs", "fmt", "creg_fmt", struct="CReg", impl=r"impl fmt :: Debug for Reg", param_types={"f": "fmtr"}, ret_override="str")
     group("register/class.rs", creg)
 
     # ---- register/virtl.rs
